@@ -456,6 +456,15 @@ func (in *Interp) constInt(e ast.Expr, what string) int {
 	}
 	k, isConst := in.constLive(v)
 	if !isConst {
+		// a value that takes one of a few constants depending on a symbolic condition (a cursor advanced by 8 or by 3
+		// bytes): ask the client to partition on "it is the smallest of them" and re-run each part
+		lo, hi := in.D.Range(v.Bits(), v.Signed)
+		if lo.IsInt64() && hi.IsInt64() && hi.Int64()-lo.Int64() <= 64 && in.live != False {
+			c := in.D.Cmp(token.EQL, v, in.D.Const(lo.Int64(), v.W, v.Signed))
+			if in.D.M.And(in.live, c) != False && in.D.M.And(in.live, in.D.M.Not(c)) != False {
+				panic(SplitRequest{Cond: c, Why: fmt.Sprintf("%s depends on a symbolic condition", what)})
+			}
+		}
 		in.fail(e, "%s is symbolic", what)
 	}
 	return int(k)
@@ -758,6 +767,8 @@ func (in *Interp) call(x *ast.CallExpr) Value {
 				var rv Value
 				if in.isForeignPkgVar(sel.X) {
 					rv = &Opaque{Kind: "extern"}
+				} else if fn.FullName() == "(*sync.Once).Do" && in.addressable(sel.X) {
+					rv = &Ptr{To: in.lvalue(sel.X), T: s.Recv()} // the identity of the Once is its storage
 				} else {
 					rv = in.expr(sel.X)
 				}
